@@ -16,12 +16,12 @@ CONSTANTS
   MaxNow = 4
   Depth = 5
   FullParams = {"p1"}
-  LiteParams = {"p2"}
+  LiteParams = {}
   GenConns = {}
   GenDefaults = {"a"}
   GenLiteOmit = {0}
   GenFixedSub = {"all"}
-  GenFullKinds = {"ReadInvalid", "Assign", "AnnounceErr", "Write"}
+  GenFullKinds = {"ReadInvalid", "Assign"}
   GenExtra = {"NestInv"}
 CONSTRAINT Bound
 INVARIANT EmitMax
